@@ -637,6 +637,11 @@ macro_rules! declare_storage_n {
                             entities[dense_index_usize].version(),
                             self.slots.slice(self.capacity())[slot_index_usize].version());
 
+                        // The version increments below may panic on overflow. Trigger any such
+                        // panic now, before anything is modified, so unwinding leaves us intact.
+                        let _ = self.version.next();
+                        let _ = self.slots.slice(self.capacity()).get_unchecked(slot_index_usize).version().next();
+
                         #[cfg(feature = "events")]
                         {
                             self.destroyed.push(*entities.get_unchecked(dense_index_usize));
